@@ -215,19 +215,21 @@ func AssertElement[T r.Element](value r.Element) (T, error) {
 	if v, ok := value.(T); ok {
 		return v, nil
 	}
-	return value.(T), zerr.InvalidParamType(getElementTypeString(value))
+	var zero T
+	return zero, zerr.InvalidParamType(getElementTypeString(value))
 }
 
 func AssertPropertyElement[T r.Element](root r.Element, key string) (T, error) {
+	var zero T
 	prop, err := root.GetProperty(key)
 	if err != nil {
-		return root.(T), err
+		return zero, err
 	}
 
 	if v, ok := prop.(T); ok {
 		return v, nil
 	}
-	return root.(T), zerr.InvalidParamType(getElementTypeString(prop))
+	return zero, zerr.InvalidParamType(getElementTypeString(prop))
 }
 
 func BuildEitherElement[A r.Element, B r.Element](elem r.Element) Either[A, B] {
